@@ -15,7 +15,7 @@ LEXER_BOUNDED = ('sub-lexer contracts found_ok for lex_spaces/lex_tabs/lex_newli
 PROPS = {
     'C01': dict(
         level='proof',
-        verus=['span', 'patterns', 'lexing', 'url', 'jsdoc', 'edit_distance', 'mask', 'mask_parser', 'document'],
+        verus=['span', 'patterns', 'lexing', 'url', 'jsdoc', 'edit_distance', 'mask', 'mask_parser', 'document', 'vec_ext'],
         kani_quick=['lexing.whitespace_5', 'jsdoc.parse_inline_tag_4', 'jsdoc.parse_inline_tag_5'],
         rac=['lexers', 'url_scanner', 'document_tiles', 'remove_indices', 'condense_indices', 'markdown_tokens', 'comment_frontends', 'lhs_frontend', 'typst_frontend', 'rule_spans', 'lint_group_cache'],
         kani_thorough=['lexing.whitespace_5', 'lexing.whitespace_8', 'lexing.hostname_4', 'lexing.url_4',
@@ -28,13 +28,13 @@ PROPS = {
             'WithinEditDistance::matches calls edit_distance_min_alloc without establishing len <= 254 (thread_local! closure: not extractable) -- defect D5, seen by reading, decided by no obligation',
         ],
         assumptions=[LEXER_BOUNDED,
-                     'VecExt::remove_indices contract assumed in Verus (checked by bounded-rac under C13)',
+                     'VecExt::remove_indices: body PROVED against its contract in unit vec_ext, modulo desugaring R9 (Vec::retain = one closure call per element, in order; survivors are the elements answered true)',
                      'Document passes: preconditions sum of whitespace counts <= usize::MAX and token count + 4 <= usize::MAX (machine assumptions)',
                      'jsdoc: parse_inline_tag is PROVED (unit jsdoc, R6) and additionally run through bounded Kani harnesses (length <= 6); mark_inline_tags is unverified by both verifiers (closures / kani-compiler 0.68 crash) and covered by rac:comment_frontends only'],
     ),
     'C02': dict(
         level='proof',
-        verus=['lexing', 'url', 'number', 'mask', 'mask_parser', 'document'],
+        verus=['lexing', 'url', 'number', 'mask', 'mask_parser', 'document', 'vec_ext'],
         kani_quick=['lexing.whitespace_5'],
         kani_thorough=['lexing.whitespace_5', 'lexing.whitespace_8', 'lexing.hostname_4', 'lexing.url_4'],
         rac=['lexers', 'url_scanner', 'document_tiles', 'remove_indices', 'condense_indices', 'markdown_tokens'],
@@ -77,15 +77,15 @@ PROPS = {
     ),
     'C13': dict(
         level='proof',
-        verus=['overlaps', 'overlaps32'],
+        verus=['overlaps', 'overlaps32', 'vec_ext'],
         kani_quick=[], kani_thorough=[],
         rac=['remove_indices', 'remove_overlaps', 'currency_conflict_free', 'wasm_api'],
         unverified=[
-            'VecExt::remove_indices body (Vec::retain with a stateful closure): contract assumed in Verus, executed exhaustively for every length <= 12 and every strictly increasing index list (bounded-rac, not proved)',
             'callers in harper-wasm / harper-cli / currency_placement.rs and that lints handed to remove_overlaps have start <= end (the precondition)',
         ],
         assumptions=['<[T]>::sort_by_key returns a permutation sorted by the closure key (assume_specification); lexicographic Ord on (usize, usize); the unit is verified twice, with size_of usize == 8 and == 4 (wasm32), because `!0 == usize::MAX` is a bit-vector fact',
-                     'desugaring R1 and the closure annotation of the sort key closure'],
+                     'desugaring R1 and the closure annotation of the sort key closure',
+                     'VecExt::remove_indices: its body is PROVED against the contract remove_overlaps relies on (unit vec_ext), modulo desugaring R9: the call self.retain(closure) is replaced by the documented behaviour of Vec::retain (closure body run once per element, in order; exactly the elements answered true remain) - trusted stand-in vec_retain_flags'],
     ),
     'C15': dict(
         level='proof',
